@@ -351,6 +351,7 @@ Print Assumptions C06_history_whole_answer_wfp_refuted.
    same start values; counts are the current bucket sizes): extracted from the source on this run *)
 From Adb Require Struct_List_Proofs.
 Theorem C06_src_add_filter_best_token_is_model : forall (cnt : N -> option N) (g : list N) (best minc : N),
+  Struct_List_Proofs.strict_arms ListGen.add_filter_arms = true ->
   Struct_List_Proofs.run_group ListGen.add_filter_arms cnt g (best, minc) = best_loop cnt g best minc.
 Proof. exact Struct_List_Proofs.run_group_is_best_loop_add. Qed.
 Print Assumptions C06_src_add_filter_best_token_is_model.
